@@ -11,19 +11,20 @@
        value without these six characters is not hostile);
      - GetDefaultHandler is a lookup in the default table that falls back to BaseHandler, whose
        body is `return false` (shape recognised by the translator, which fails otherwise).
-   WHOLE HANDLERS of the keyword shape (89 functions, 99 of the 213 table entries) are proved outright:
-   C18_keyword_handlers_whole - the modelled handler (Model/KwHandler.v: splitValues, in, optional
-   regexp acceptors; shape and helper texts recognised by the translator, model tied to the real
-   handlers by the correspondence run) accepts no hostile value of any length, because the six
-   characters survive Split / TrimSpace / ToLower unchanged (Proofs/DangerBytes.v) and no keyword
-   contains one.
+   WHOLE HANDLERS whose body is a disjunction of conditions on the value (122 functions, 157 of the
+   213 table entries) are proved outright: C18_handlers_whole - the modelled handler
+   (Model/KwHandler.v: regexp acceptors, calls of earlier handlers, in(splitValues(value), keywords),
+   in(strings.Split(value, " "), keywords); shape and helper texts recognised by the translator,
+   models tied to the real handlers by the correspondence run) accepts no hostile value of any
+   length: the regexps are inert, and the six characters survive Split / TrimSpace / ToLower
+   unchanged (Proofs/DangerBytes.v) while no keyword contains one.
    One composing block is proved as well: recursiveCheck (modelled in Model/RecCheck.v, tied to the
    code on results and call counts, proved correct and quadratic for C14) accepts a value only if
    every component lies in a group that a sub-handler accepted, so with sub-handlers that accept only
    values free of the six characters the whole value is free of them and not hostile
    (C18_recursive_check_composes).
-   Missing: the other 80 handler functions (splits on space / slash, sub-handler combinations, the
-   14 hand-written loops).  That part is covered by the
+   Missing: the other 47 handler functions (recursiveCheck combinations, splits on slash, the
+   hand-written loops).  That part is covered by the
    bounded-exhaustive implementation-side search the property text itself describes: for all
    table entries, values from the handler's own vocabulary with hostile fragments inserted,
    appended, prepended and glued at every position. *)
@@ -31,7 +32,7 @@ From Coq Require Import List NArith Bool String.
 Import ListNotations.
 From BM Require Import Bytes Regex RegexSound RegexSem CssInert GenRegex GenCss C18Inst C18Inert0 C18Inert1 C18Inert2 C18Inert3 C18Whole C18Strip C18Kw C18Danger.
 From BM Require Utf8 Strings RecCheck RecCheckSafe Utf8Props.
-From BM Require Import KwHandler C18KwHandlers.
+From BM Require Import KwHandler KwHandlerProofs C18KwHandlers.
 From Coq Require Import Lia.
 Open Scope N_scope.
 
@@ -107,23 +108,41 @@ Proof.
   pose proof (Utf8Props.runes_small_in _ r Hr Hsmall) as Hin. rewrite Forall_forall in Hb. rewrite (Hb r Hin) in E. discriminate.
 Qed.
 
-(* WHOLE HANDLERS: for every handler function of css/handlers.go whose body has the keyword shape
-     [if R.MatchString(value) { return true }]*  values := []string{..}; splitVals := splitValues(value); return in(splitVals, values)
-   (89 functions serving 99 of the 213 table entries; gen recognises the shape and compares splitValues and in with their expected
-   source text), the modelled handler accepts no hostile value, whatever its length.  The model of these handlers is tied to the real
-   ones on the C18 corpus by the correspondence run. *)
-Theorem C18_keyword_handlers_whole : forall fn h, In (fn, h) css_kw_handlers ->
-  forall v, kw_shape_handler css_acceptors h v = true -> matches hostile (Utf8.runes v) = false.
+(* WHOLE HANDLERS: for every handler function of css/handlers.go whose body is a disjunction of conditions on the value
+     values := []string{..} | splitVals := splitValues(value) | splitVals := strings.Split(value, " ")     (bindings)
+     if COND { return true } ... return COND,   COND ::= R.MatchString(value) | OtherHandler(value) | in(splitVals, values|colorValues)
+   (122 functions serving 157 of the 213 table entries; the translator recognises the shape statement by statement, orders the
+   definitions by their calls and compares splitValues and in with their expected source text), the modelled handler accepts no
+   hostile value, whatever its length.  The models are tied to the real handlers by the correspondence run. *)
+Definition not_hostile (v : Bytes.bytes) : Prop := matches hostile (Utf8.runes v) = false.
+Definition css_handlers : henv := build_handlers css_acceptors css_handler_defs [].
+
+Lemma css_conds_ok : Forall (fun nd => Forall (cond_ok css_acceptors not_hostile) (snd nd)) css_handler_defs.
 Proof.
-  intros fn h Hin v H. unfold kw_shape_handler in H. apply orb_true_iff in H as [H|H].
-  - apply existsb_exists in H as (nm & Hnm & Hacc). unfold acceptor in Hacc.
-    destruct (find (fun a => String.eqb (fst a) nm) css_acceptors) as [[n X]|] eqn:Ef; [|discriminate].
-    apply find_some in Ef as [Ein _]. cbn [snd] in Hacc. exact (C18_regexps_inert n X Ein _ Hacc).
-  - apply clean_bytes_not_hostile. exact (kw_handler_clean fn h v Hin H).
+  apply Forall_forall. intros [n d] Hin. cbn [snd]. apply Forall_forall. intros c Hc.
+  pose proof handler_keywords_clean as K. rewrite forallb_forall in K. specialize (K _ Hin). cbn [snd] in K.
+  rewrite forallb_forall in K. specialize (K c Hc).
+  destruct c as [nm|fn|kw|kw]; cbn [cond_ok cond_keywords] in *.
+  - intros v Hacc. unfold acceptor in Hacc.
+    destruct (find (fun a => String.eqb (fst a) nm) css_acceptors) as [[n0 X]|] eqn:Ef; [|discriminate].
+    apply find_some in Ef as [Ein _]. cbn [snd] in Hacc. exact (C18_regexps_inert n0 X Ein _ Hacc).
+  - exact I.
+  - intros v H. apply clean_bytes_not_hostile. exact (cin_clean kw v K H).
+  - intros v H. apply clean_bytes_not_hostile. exact (cinspace_clean kw v K H).
 Qed.
 
-Example C18_keyword_handlers_coverage : Nat.leb 90 kw_handler_entries = true.
-Proof. exact kw_handler_coverage. Qed.
+Theorem C18_handlers_whole : forall fn h, In (fn, h) css_handlers -> forall v, h v = true -> matches hostile (Utf8.runes v) = false.
+Proof.
+  intros fn h Hin v Hv.
+  assert (E : env_ok not_hostile css_handlers).
+  { apply build_handlers_ok; [intros e [] | exact css_conds_ok]. }
+  exact (E (fn, h) Hin v Hv).
+Qed.
+
+(* every call in these definitions goes to an earlier one (the model never falls back to "unknown handler"), and they
+   serve at least 150 of the table's entries (157 of 213 on the pinned tree) *)
+Example C18_handlers_resolved_and_coverage : calls_resolved css_handler_defs [] = true /\ Nat.leb 150 handler_entries = true.
+Proof. split; [exact handler_calls_resolved | exact handler_coverage]. Qed.
 
 Theorem C18_unknown_property : get_default_handler_is_table_lookup_else_base = true /\ base_handler_is_return_false = true.
 Proof. split; reflexivity. Qed.
@@ -131,7 +150,7 @@ Proof. split; reflexivity. Qed.
 Print Assumptions C18_regexps_inert.
 Print Assumptions C18_hostile_needs_danger.
 Print Assumptions C18_recursive_check_composes.
-Print Assumptions C18_keyword_handlers_whole.
+Print Assumptions C18_handlers_whole.
 Print Assumptions C18_regexps_whole_value.
 Print Assumptions C18_strippers_anchored.
 Print Assumptions C18_keywords_inert.
